@@ -321,7 +321,7 @@ def gb_close(a, b):
 
 
 def _gcp_same(a, b):
-    return (tuple(a.shape) == tuple(b.shape) and a.crs == b.crs and a.affine == b.affine
+    return (tuple(a.shape) == tuple(b.shape) and a.crs == b.crs and a._affine == b._affine
             and np.array_equal(a._mapping._pix, b._mapping._pix) and np.allclose(a._mapping._wld, b._mapping._wld, rtol=0, atol=0))
 
 
@@ -349,18 +349,21 @@ PAIRS = (("EPSG:3857", "EPSG:4326"), ("EPSG:4326", "EPSG:3857"), ("EPSG:32633", 
          ("EPSG:3857", "EPSG:32633"), ("EPSG:32633", "EPSG:3857"))
 
 
-def reproject_options(opt, dst):
-    """Grid options that may accompany a CRS destination; values sized to the destination's units."""
+def reproject_options(opt, dst, src=None):
+    """Grid options that may accompany a CRS destination; values sized to the destination's units and to the source
+    pixel (0.25 degree pixels are ~20 km: a 512 m request would be a 750x590 destination cut into 22 000 tiles of the
+    source's 4x5 chunk size - minutes of planning per case and nothing the property is about)."""
     deg = dst == "EPSG:4326"
+    coarse_src = src == "EPSG:4326" and not deg
     return {
-        "resolution": dict(resolution=0.5 if deg else 4096.0),
-        "resolution-fine": dict(resolution=0.125 if deg else 512.0),
+        "resolution": dict(resolution=0.5 if deg else (32768.0 if coarse_src else 4096.0)),
+        "resolution-fine": dict(resolution=0.125 if deg else (8192.0 if coarse_src else 512.0)),
         "shape": dict(shape=(5, 7)),
         "tight": dict(tight=True),
         "anchor-center": dict(anchor="center"),
         "anchor-floating": dict(anchor="floating"),
-        "res+tight": dict(resolution=0.5 if deg else 4096.0, tight=True),
-        "res+center": dict(resolution=0.5 if deg else 4096.0, anchor="center"),
+        "res+tight": dict(resolution=0.5 if deg else (32768.0 if coarse_src else 4096.0), tight=True),
+        "res+center": dict(resolution=0.5 if deg else (32768.0 if coarse_src else 4096.0), anchor="center"),
         "tol": dict(tol=0.3),
         "no-round": dict(round_resolution=False),
     }[opt]
@@ -409,7 +412,7 @@ def run_reproject(case):
         target = dst
         want = xx.odc.output_geobox(dst)
     elif how.startswith("crs+"):
-        kwopt = reproject_options(how[4:], dst)
+        kwopt = reproject_options(how[4:], dst, src)
         target = dst
         want = xx.odc.output_geobox(dst, **kwopt)
         default = xx.odc.output_geobox(dst)
@@ -607,11 +610,104 @@ def run_registration(case):
     return r
 
 
+# -- wrap inputs: where the non-spatial inputs of a wrap come from ------------------------------------------------------
+TIME_KINDS = ("none", "str", "list", "np-datetime64", "plain-DataArray", "borrowed-other-crs", "borrowed-gcp",
+              "borrowed-same-crs-other-grid", "borrowed-custom-crs-name", "borrowed-after-slice")
+WRAP_ENTRIES = ("wrap_xr", "wrap_xr-dask", "xr_zeros", "xr_zeros-dask")
+
+
+def _donor(kind_t, crs):
+    """A geo-registered raster with a time axis whose `.time` coordinate is handed to the wrap under test: it drags the
+    donor's own scalar CRS coordinate (and, for GCP donors, the control points stored on it) along."""
+    other_crs = "EPSG:3577" if crs != "EPSG:3577" else "EPSG:32633"
+    if kind_t == "borrowed-gcp":
+        g = make_geobox("gcp", (3, 4), other_crs)
+    elif kind_t == "borrowed-same-crs-other-grid":
+        g = GeoBox((3, 4), Affine(100.0, 0, -7000.0, 0, -100.0, 9000.0), crs)
+    else:
+        g = GeoBox((3, 4), Affine(100.0, 0, -7000.0, 0, -100.0, 9000.0), other_crs)
+    name = "crs_of_donor" if kind_t == "borrowed-custom-crs-name" else "spatial_ref"
+    dd = wrap_xr(np.zeros((2, 3, 4), dtype="uint8"), g, time=["2020-01-01", "2020-01-02"], crs_coord_name=name)
+    if kind_t == "borrowed-after-slice":
+        dd = dd.isel(x=slice(1, 3))
+    return dd
+
+
+def gen_wrap_inputs(tier):
+    def g():
+        for kind in KINDS:
+            for shape in SHAPES:
+                for crs in CRSS:
+                    if not valid_combo(kind, shape, crs):
+                        continue
+                    for entry in WRAP_ENTRIES:
+                        for tk in TIME_KINDS:
+                            for cname in ("spatial_ref", "crs"):
+                                yield (kind, shape, crs, entry, tk, cname)
+
+    return g
+
+
+def run_wrap_inputs(case):
+    from odc.geo.xr import xr_zeros  # pylint: disable=import-outside-toplevel
+
+    kind, shape, crs, entry, tk, cname = case
+    G0 = make_geobox(kind, shape, crs)
+    nt = 0 if tk == "none" else (1 if tk == "str" else 2)
+    if tk == "none":
+        tm = None
+    elif tk == "str":
+        tm = "2020-01-01"
+    elif tk == "list":
+        tm = ["2020-01-01", "2020-01-02"]
+    elif tk == "np-datetime64":
+        tm = np.asarray(["2020-01-01", "2020-01-02"], dtype="datetime64[ns]")
+    elif tk == "plain-DataArray":
+        import xarray as xr  # pylint: disable=import-outside-toplevel
+
+        tm = xr.DataArray(np.asarray(["2020-01-01", "2020-01-02"], dtype="datetime64[ns]"), dims=("time",))
+    else:
+        tm = _donor(tk, crs).time
+    cls = f"{kind}:{'x'.join('1' if n == 1 else 'n' for n in shape)}:{entry}:time-{tk}:crsname-{'default' if cname == 'spatial_ref' else 'custom'}"
+    r = R(outcome=f"wrap-inputs:{entry}:time-{tk}:{kind}")
+    what = f"{case}"
+    if entry.startswith("xr_zeros") and tk == "str":
+        return R(outcome="wrap-inputs:n/a", nontrivial=False)  # xr_zeros takes len(time)
+    try:
+        if entry.startswith("wrap_xr"):
+            full = tuple(shape) if nt == 0 else (nt, *shape)
+            data = np.arange(int(np.prod(full)), dtype="int16").reshape(full)
+            if entry.endswith("dask"):
+                data = da.from_array(data, chunks=tuple(max(1, (n + 1) // 2) for n in full))
+            xx = wrap_xr(data, G0, time=tm, crs_coord_name=cname)
+        else:
+            kw = dict(chunks=((1, 2, 2) if nt else (2, 2))) if entry.endswith("dask") else {}
+            xx = xr_zeros(G0, "int16", time=tm, crs_coord_name=cname, **kw)
+        g = xx.odc.geobox
+        c = xx.odc.crs
+    except Exception as e:  # pylint: disable=broad-except
+        if not core.in_repo_tb(e):
+            raise
+        return r.fail(f"wrap-inputs:raised:{type(e).__name__}:{cls}", f"{what}: {type(e).__name__}: {e}")
+    ok = g is not None and (g == G0 or (gb_close(g, G0) if kind != "gcp" else (isinstance(g, GCPGeoBox) and _gcp_same(g, G0))))
+    if not ok:
+        r.fail(f"wrap-inputs:roundtrip-unequal:{cls}", f"{what}: wrapped {G0!r}, recovered {g!r}")
+    want_crs = None if crs is None else CRS(crs)
+    if c != want_crs:
+        r.fail(f"wrap-inputs:crs:{cls}", f"{what}: wrapped with CRS {want_crs}, array reports {c}")
+    if nt and ("time" not in xx.dims or xx.sizes["time"] != nt):
+        r.fail(f"wrap-inputs:time-axis:{cls}", f"{what}: dims {xx.dims} sizes {dict(xx.sizes)}")
+    return r
+
+
 def slices(tier):
     return [
         e1.Slice("shared-state-family", gen_family(tier), run_family, "all ordered pairs (thorough: triples) of wraps of GeoBoxes derived from one parent"),
         e1.Slice("ops-bfs", gen_bfs(tier), run_bfs, "BFS over operation sequences per initial array", shards=128),
         e1.Slice("reproject", gen_reproject(tier), run_reproject, "DataArray/Dataset x CRS pairs x target kind (GeoBox, CRS, CRS + each grid option) x backend"),
+        e1.Slice("wrap-inputs", gen_wrap_inputs(tier), run_wrap_inputs,
+                 "wrap_xr / xr_zeros (numpy, dask) x GeoBox kinds x time axis given as str / list / array / DataArray / a time "
+                 "coordinate borrowed from another registered raster (other CRS, GCP, other grid, custom CRS coordinate name, sliced)"),
         e1.Slice("registration", gen_registration(tier), run_registration,
                  "axis-aligned grids on / within 1e-3 of / half a pixel from whole coordinates x pixel sizes 4.5e-6..16 x slicing ops"),
     ]
